@@ -376,6 +376,10 @@ func sigOf(es []rg.Expr) string {
 
 func Ops() []*core.Op {
 	singles := rg.SingleExprs()
+	return append(baseOps(singles), launchOp())
+}
+
+func baseOps(singles []rg.Expr) []*core.Op {
 	return []*core.Op{
 		{
 			Name: "c13.roundtrip",
